@@ -122,7 +122,9 @@ func (i *Interpreter) eval(expr ast.Expr, env *environment.Environment, isRepl b
 	case *ast.ObjectLiteral:
 		properties := make(map[string]interface{})
 
-		for key, valueExpr := range e.Properties {
+		// initialisers run in source order, not in Go's randomised map order
+		for _, key := range e.OrderedKeys() {
+			valueExpr := e.Properties[key]
 			value, signal := i.eval(valueExpr, env, isRepl)
 			if signal.Type != ControlFlowNone {
 				return nil, signal
